@@ -472,7 +472,7 @@ Start == /\ ph = 0
 AddMod == /\ ph = 1 /\ Len(p.mods) < MaxMods
           /\ \A l \in Range(Assigned(p)) : (IF ~IsArr(p) /\ IsFine(p, l) THEN l.t = "none" ELSE TRUE)
           /\ IF IsArr(p)
-             THEN \E s \in Shapes(p.dims) : /\ (Len(p.dims) >= 2 /\ ~Rich) => Len(p.mods) = 0
+             THEN \E s \in Shapes(p.dims) : /\ Len(p.dims) >= 2 => Len(p.mods) = 0       \* rank >= 2: one modification
                                             /\ p' = [p EXCEPT !.mods = Append(@, ArrL(s))]
              ELSE \E m \in ModTab[<<p.ty, p.nu>>] :
                      /\ Len(p.mods) >= 1 => ~IsFine(p, m)
